@@ -647,6 +647,19 @@ func evalGomacro(pre, src string, shows []string) (res evalResult) {
 	res.Values = map[string]string{}
 	for _, sh := range shows {
 		if p := vh.Catch(func() {
+			if x, typed := typedShow[sh]; typed { // CGROUP stream: type and value (compiled Go prints fmt.Sprintf("%T=%v", x, x))
+				vals, ts := ir.Eval(x)
+				if len(vals) == 1 && len(ts) == 1 && vals[0].IsValid() && ts[0] != nil {
+					tn := ts[0].Name()
+					if tn == "" {
+						tn = ts[0].String()
+					}
+					res.Values[sh] = fmt.Sprintf("%s=%v", tn, vals[0].Interface())
+				} else {
+					res.Values[sh] = "<none>"
+				}
+				return
+			}
 			vals, _ := ir.Eval(sh)
 			if len(vals) > 0 && vals[0].IsValid() {
 				res.Values[sh] = fmt.Sprintf("%v", vals[0].Interface())
@@ -860,6 +873,9 @@ func buildOracle(dir string, vs []variant) (map[int]map[string]string, error) {
 		for i, sh := range v.Shows {
 			if i < len(raw[v.ID]) {
 				m[sh] = raw[v.ID][i]
+				if _, typed := typedShow[sh]; typed { // %T of a declared type: drop the package qualifier
+					m[sh] = strings.TrimPrefix(m[sh], fmt.Sprintf("c%05d.", v.ID))
+				}
 			}
 		}
 		res[v.ID] = m
@@ -921,12 +937,17 @@ func main() {
 		"is evaluated in the SAME interpreter and every name is compared with compiled Go of the second set alone. Excluded classes (known findings): locals/parameters named like a declaration (#1), "+
 		"a function declaration that refers to a name declared earlier in the text (#2; every permutation puts a function before the names it uses), "+
 		"mutually recursive functions (#3), methods used by initialisers (C16-4), side-effecting sets whose declaration-level variable order differs from Go's variable-level order (C16-6). non-trivial = at least one reference between declarations; "+
+		"CGROUP (40 quick / 400 thorough sets, own PRNG stream, regenerated until go/types accepts): a random set plus 1..2 parenthesised const GROUPS of 3..7 specs mixing typed specs (narrow ints, floats, rune/byte, string, named types of the set), "+
+		"untyped specs with explicit values (ints up to 1<<40, floats, runes, strings, iota expressions, references to earlier constants) and implicit-repetition specs, 1..2 names per spec; every constant is observed with %T=%v, "+
+		"and through constant expressions / variables / function bodies where untypedness matters (K/2, K*1000/8, K+0.5, K/4.0, K*K/7, conversions). "+
 		"distinct by SHA-256 of the permuted text.")
 	cw := vh.NewCases(a, "From Coq Require Import List NArith ZArith.\nFrom Verif Require Import Common.GoStr C17.Model C16.Model.\nImport ListNotations.\nOpen Scope Z_scope.", "case", "mismatches", 250)
 
 	nSets, nPerm, nCyc, nHist := 70, 3, 40, 40
 	nAnon := 30
+	nGroup := 40
 	if a.Thorough() {
+		nGroup = 400
 		nSets, nPerm, nCyc, nHist = 500, 5, 150, 400
 		nAnon = 300
 	}
@@ -1046,6 +1067,43 @@ func main() {
 		vs = append(vs, variant{ID: len(vs), Set: nSets + nCyc + h, Src: text(s2, permute(s2, rng)), Shows: shows,
 			Origin: "history:" + mode, Pre: text(s1, permute(s1, rng))})
 		vs[len(vs)-1].Set += nAnon
+	}
+	// CGROUP (cgroup.go): sets with parenthesised const groups mixing typed / untyped-explicit / implicit-repetition specs and
+	// uses that make the (un)typedness of every constant observable; own PRNG stream; sets go/types rejects (a value that
+	// overflows the narrow type picked for it) are regenerated
+	grng := vh.NewRng(a.Seed*104729 + 1601)
+	for gk := 0; gk < nGroup; gk++ {
+		var s declSet
+		valid := false
+		for try := 0; try < 30 && !valid; try++ {
+			s, _ = genSetK(grng, false, nil, false)
+			s.Ents = addConstGroups(s.Ents, grng)
+			id := make([]int, len(s.Ents))
+			for i := range id {
+				id[i] = i
+			}
+			valid = typeCheck(text(s, id)).Err == ""
+		}
+		if !valid {
+			rep.Dist("cgroup:no-valid-set-in-30-tries")
+			continue
+		}
+		var shows []string
+		for _, e := range s.Ents {
+			if e.Show != "" {
+				shows = append(shows, e.Show)
+			}
+		}
+		seen := map[string]bool{}
+		for k := 0; k < nPerm; k++ {
+			src := text(s, permute(s, grng))
+			if seen[src] {
+				continue
+			}
+			seen[src] = true
+			rep.Dist("set:with-const-groups")
+			vs = append(vs, variant{ID: len(vs), Set: nSets + nCyc + nAnon + nHist + gk, Src: src, Shows: shows, Origin: "random-valid"})
+		}
 	}
 	// go/types on every variant; only accepted ones are compiled
 	infos := make([]goInfo, len(vs))
